@@ -119,7 +119,7 @@ def generate(ctx):
         ops = gen_ops(ctx.rng, cfg, ctx.rng.randint(5, 50 if ctx.tier == "thorough" else 25), failing=failing)
         if ctx.rng.random() < 0.1:
             cfg["_modelsub"] = True  # the long-lived model is an instance of an application-side subclass
-        yield "seq", dict(model=m, cfg=cfg, ops=ops, idmode=ctx.rng.choice(["default", "sorted", "reversed", "equal", "swapnames"]))
+        yield "seq", dict(model=m, cfg=cfg, ops=ops, idmode=ctx.rng.choice(["default", "sorted", "reversed", "equal", "swapnames", "samenames"]))
     for _ in range(ctx.budget(300, 24000)):
         m = ctx.rng.choice(MODEL_NAMES)
         cfg = league.league_cfg(ctx.rng, gen)
@@ -213,6 +213,9 @@ def _mk_teams(model, op, idmode=None, tag=""):
     elif idmode == "equal":
         for p in flat:
             p.id = "same-id"
+    elif idmode == "samenames":
+        for p in flat:
+            p.name = "guest"  # namesakes and placeholder names: results do not depend on names
     elif idmode == "swapnames":
         names = [p.name for p in flat][::-1]
         for p, nm in zip(flat, names):
